@@ -557,13 +557,19 @@ class VariantBase(productmd.common.MetadataBase):
         # There can be exceptions, like $variant-optional on top-level,
         # because optional lives in a separate tree
         if name not in self.variants and "-" in name:
-            # look for the UID first
+            # follow the path $head-$tail first; inside a variant the name is
+            # relative to it and must not be mistaken for a child's full UID
+            head, tail = name.split("-", 1)
+            if head in self.variants:
+                try:
+                    return self.variants[head][tail]
+                except KeyError:
+                    pass
+            # then look for the UID ($variant-optional on top-level)
             for i in self.variants:
                 var = self.variants[i]
                 if var.uid == name:
                     return var
-            # if UID is not found, split and look for variant matching the parts
-            head, tail = name.split("-", 1)
             return self.variants[head][tail]
         return self.variants[name]
 
